@@ -5,16 +5,32 @@ PLAN = dict(
     steps=[
         step("heap-x86", "codegen-x86", "heap-x86", 150, 6000, shards_thorough=12, viol=r"class=heap-invariant"),
         step("heap-families-x86", "c10-x86", "c10-x86", 0, 0, viol=r"class=heap-invariant"),
+        step("heapops-x86", "heapops-x86", "heapops-x86", 300, 6000, viol=r"class=heapops-mismatch"),
     ],
-    rule="every program of the corpus (examples, testsuite, corpus/fun, corpus/c10) compiled by the real pipeline; the REAL x86-64 code is "
+    rule="(1) every program of the corpus (examples, testsuite, corpus/fun, corpus/c10) compiled by the real pipeline; the REAL x86-64 code is "
          "executed on the ISA model for 4 argument tuples (3 iteration counts for the loop families) in lockstep with the AxCut machine; at every "
          "statement boundary (the implementation's own statement comments) the executable invariant inv_check is evaluated on the emulated "
          "memory with the roots of the live variables: free-list shapes, exact counts, no dangling reference, nothing written above the "
          "frontier; also: every memory access inside heap / reserved stack. Non-trivial = at least one boundary checked (tag nt); "
-         "tags: boundaries (log2), peak blocks in use (log2), allocates",
-    explanation="theorems: the counting invariant is preserved by share, erase, lists of erasures, acquire (3 cases), single-block alloc, destructive load, "
-                "and holds initially (abstract allocator Model/Heap.v); link to programs: execution of the implementation's code with the invariant checked at every boundary",
-    assumptions=["Model/Heap.v abstracts memory.rs block-granularly; its tie to the emitted code is the boundary check on the ISA model, not a refinement proof",
+         "tags: boundaries (log2), peak blocks in use (log2), allocates. "
+         "(2) heapops-x86: random sequences (5-60) of allocator operations on a context of variables in registers and spill slots; the code of "
+         "each operation comes from the REAL trait methods of axcut2x86_64::Backend (erase_block, share_block_n, store of 0-8 fields of mixed "
+         "kinds, load in both modes, mov, load_immediate) and is run on the ISA model; after EVERY operation abs_heap of the machine state "
+         "(headers, pointer slots, heap/free registers) must equal Heap.step of the abstract state, the pointer returned by store / the pointers "
+         "delivered by load must be those of alloc_object / obj_fields, nothing may be written at or above the abstract frontier, and inv_check "
+         "must hold with the live pointer variables as roots. Tags: multiblock, release, share, deferred, recycle, spill",
+    explanation="theorems (abstract allocator Model/Heap.v, Proof/HeapMore.v, Proof/HeapTrace.v): the counting invariant and its strengthening InvA "
+                "(exact partition of the blocks below the frontier, non-negative counts, acyclic slots) hold initially and are preserved by share, "
+                "erase, acquire (3 cases), single-block and chained-object allocation, destructive and non-destructive load of single-block and "
+                "chained objects, hence by every operation trace whose preconditions hold (example trace given); derived: classification of every "
+                "block below the frontier, no leak, no use after release, no double release. Refinement theorems to the x86-64 code on the ISA "
+                "semantics for share_block_n and erase_block (Proof/X86Mem.v). Link to programs: execution of the implementation's code with the "
+                "invariant checked at every boundary; link of the other operations' code to the abstract model: heapops-x86",
+    assumptions=["Model/Heap.v abstracts memory.rs block-granularly; share_block_n and erase_block are proved to refine it on the ISA model, "
+                 "acquire_block/store/load are tied to it by the operation-level correspondence heapops-x86, not by proof",
+                 "the trace theorem takes the well-formedness of loaded objects (continuation blocks with header 0, non-null links) as a precondition; "
+                 "its derivation from typing of AxCut programs is not proved",
                  "Sem/X86Sem.v, Sem/AxSem.v, Sem/HeapCheck.v"],
-    trusted=["coq/Sem/HeapCheck.v (executable invariant)", "coq/Sem/X86Sem.v", "coq/Sem/AxSem.v + Sem/AxTrace.v (roots via lockstep)"],
+    trusted=["coq/Sem/HeapCheck.v (executable invariant)", "coq/Sem/X86Sem.v", "coq/Sem/AxSem.v + Sem/AxTrace.v (roots via lockstep)",
+             "coq/Model/RunHeapOps.v (lockstep driver of heapops-x86), harness/src/cmd_heapops.rs (generator)"],
 )
